@@ -77,6 +77,15 @@ def build_jobs(tier, seed):
         e = G.random_expr(rng, rng.choice([1, 2, 3]), leaves=BYTE_LEAVES)
         name, c = rng.choice(G.CONTEXTS)
         add(c(e), 'bytes-' + name, bm=True)
+    # (e) regex literals that accept the empty string only in some places (anchors, lookahead): they can fail like any other
+    #     literal, whatever `re.match(pattern, '')` says
+    anchors = [RX('$'), RX('(?![ab])'), RX('(?=b)'), RX('a*$'), RX('\\Z'), RX('^a'), RX('(?!a)[ab]')]
+    for rx in anchors:
+        for name, c in G.CONTEXTS:
+            add(c(rx), 'anchor-' + name)
+            add(c(SEQ(S('a'), rx, OPT(S('b')))), 'anchor-seq-' + name)
+            add(c(ALT(LEFT(S('a'), rx), S('ab'), S('a'))), 'anchor-alt-' + name)
+            add(c(REP(0, None, LEFT(S('a'), ALT(rx, S(','))))), 'anchor-rep-' + name)
     # (d) one rule nested deeply enough for the generator to move its inner part into a helper function, between siblings
     # that keep temporaries alive across it (the checkpoint of an enclosing choice/option/repetition, the items of an
     # enclosing sequence): the model has no nesting limit
